@@ -37,6 +37,7 @@ DYN = {
     "Rattle": dict(modules=["cardillo.solver.rattle"], proxy=True),
     "Moreau": dict(modules=[], proxy=True),
     "DualStormerVerlet": dict(modules=[], proxy=False, dsv=True),
+    "DualStormerVerlet_plain": dict(modules=[], proxy=False, dsv=True),  # accelerated=False: the plain fixed-point helper drives the step
     "ScipyIVP": dict(modules=[], proxy=False, scipy_mod="cardillo.solver.scipy_ivp"),
     "ScipyDAE": dict(modules=[], proxy=False, scipy_mod="cardillo.solver.scipy_dae"),
     "Newton": dict(modules=["cardillo.solver.statics"], proxy=False, static=True),
@@ -58,6 +59,8 @@ def _build(scen):
         return _static_pm()
     if scen == "truss":
         return _truss()
+    if scen == "belt":
+        return _belt()
     raise KeyError(scen)
 
 
@@ -111,6 +114,71 @@ class _Truss2D:
         return approx_fprime(q, lambda q: self.h(t, q, u), method="3-point")
 
 
+class _Belt:
+    """block on a moving belt: a friction element with a constant force reservoir and NO unilateral contact
+    (nla_N = 0, nla_F = 1) - the friction fixed-point loops are entered although there is no normal contact (seeded C21-i)"""
+
+    def __init__(self):
+        from cardillo.math.prox import Sphere
+
+        self.nq = self.nu = 1
+        self.q0 = np.array([0.2])
+        self.u0 = np.array([0.2])
+        self.constant_mass_matrix = True
+        self.name = "belt"
+        self.u_b = 3.0
+        self.friction_laws = [([], [0], Sphere(0.5 * 10.0))]
+        self.nla_F = 1
+        self.e_F = np.zeros(1)
+
+    def q_dot(self, t, q, u):
+        return u
+
+    def q_dot_u(self, t, q):
+        return np.eye(1)
+
+    def M(self, t, q):
+        return np.eye(1)
+
+    def h(self, t, q, u):
+        return np.array([-1.0 * q[0] - 0.1 * u[0]])
+
+    def h_q(self, t, q, u):
+        return np.array([[-1.0]])
+
+    def h_u(self, t, q, u):
+        return np.array([[-0.1]])
+
+    def gamma_F(self, t, q, u):
+        return np.array([u[0] - self.u_b])
+
+    def gamma_F_q(self, t, q, u):
+        return np.zeros((1, 1))
+
+    def gamma_F_u(self, t, q):
+        return np.eye(1)
+
+    def gamma_F_dot(self, t, q, u, u_dot):
+        return np.array([u_dot[0]])
+
+    def W_F(self, t, q):
+        return np.eye(1)
+
+    def Wla_F_q(self, t, q, la_F):
+        return np.zeros((1, 1))
+
+
+def _belt():
+    from cardillo import System
+    from vp.core.quiet import quiet
+
+    system = System(t0=T0)
+    system.add(_Belt())
+    with quiet():
+        system.assemble()
+    return system
+
+
 def _truss():
     from cardillo import System
     from vp.core.quiet import quiet
@@ -128,6 +196,8 @@ def _make_solver(name, system, options):
     t1 = T0 + NSTEPS * DT - 0.5 * DT  # strictly inside the last step: no grid ambiguity
     if name == "DualStormerVerlet":
         return S.DualStormerVerlet(system, t1, DT, options=options, linear_solver="LU")
+    if name == "DualStormerVerlet_plain":
+        return S.DualStormerVerlet(system, t1, DT, options=options, linear_solver="LU", accelerated=False)
     if name in ("ScipyIVP", "ScipyDAE"):
         return getattr(S, name)(system, t1, DT)
     if name == "Newton":
@@ -180,6 +250,8 @@ def configs(tier):
             scens = ["pend"]
         else:
             scens = ["pend", "ball", "drop"] if tier == "thorough" else ["pend", "ball"]
+            if solver in ("BackwardEuler", "Moreau", "Rattle"):
+                scens = scens + ["belt"]
         for scen in scens:
             for flag in (False, True):
                 reuses = (True, False) if solver in ("BackwardEuler", "Rattle") else (True,)
@@ -306,6 +378,18 @@ def check(case):
         if dplan.n != case["n_points"]:
             fails.append({"site": "harness: decision points not reproducible", "msg": f"{dplan.n} vs {case['n_points']}", "data": {}})
         kinds = sorted({r["kind"] for r in dplan.log})
+        entered = "fixed_point" in kinds
+        if entered and scen in ("ball", "drop", "belt") and DYN[solver].get("proxy") and dry["raised"] is None:
+            # reading the iteration limit is not yet an entry: force ALL fixed-point decision points at once and see whether any
+            # convergence test ever reads the (poisoned) tolerance
+            allfp = tuple(i for i, r in enumerate(dplan.log) if r["kind"] == "fixed_point")
+            _, p2 = run_once(solver, scen, flag, reuse, allfp)
+            entered = any(r["effective"] for r in p2.log if r["forced"])
+        if scen in ("ball", "drop", "belt") and DYN[solver].get("proxy") and not entered and dry["raised"] is None:
+            # a system with unilateral contacts / friction elements: the solver must enter its contact fixed-point loop
+            # (otherwise that part of the model is silently ignored and no failure of the loop can ever be reported)
+            fails.append({"site": f"contact/friction fixed-point loop never entered on a system with friction [{solver}]",
+                          "msg": f"{solver}/{scen}: decision points of the fault-free run: {kinds}", "data": {"scen": scen, "kinds": kinds}})
         return {"fails": fails, "nontrivial": dplan.n > 0, "evals": 1, "outcome": f"dry:{solver}:{'+'.join(kinds)}",
                 "stats": {"decision_points": dplan.n}}
     full_rows = dry["rows"]
